@@ -174,7 +174,32 @@ def run(prog, rep):
     rep.ob("C05.2", ini, "own-ref", okd and okd2 and okd3,
            "the library TLS slot is created with pp_uthread_cleanup, which unrefs; the new thread publishes its handle in that slot" if (okd and okd2 and okd3) else
            "the running thread's own reference is not dropped through the TLS destructor (slot destructor: %s, destructor unrefs: %s, proxy publishes: %s)" % (okd, okd2, okd3), ini.loc[0])
-    rep.floor("C05.2", 5)
+    # a handle taken out of the library slot and unref'ed by hand must leave the slot on that path: the slot's destructor drops the
+    # same reference again when the thread ends
+    nslot = 0
+    for f_ in u.roots():
+        getters = {}
+        for b, i, n in f_.nodes():
+            if n["k"] == "asg" and strip_casts(n["l"])["k"] == "ref":
+                r_ = strip_casts(n["r"])
+                if r_ is not None and r_["k"] == "call" and r_.get("callee") == "p_uthread_get_local" and root_var(r_["args"][0]) == TLS:
+                    getters[strip_casts(n["l"])["name"]] = n
+            if n["k"] == "decl" and n.get("init") is not None:
+                r_ = strip_casts(n["init"])
+                if r_ is not None and r_["k"] == "call" and r_.get("callee") == "p_uthread_get_local" and root_var(r_["args"][0]) == TLS:
+                    getters[n["name"]] = n
+        if not getters or f_.name == "pp_uthread_cleanup":
+            continue
+        unrefs = [(b, i, c) for (b, i, c) in f_.calls() if c.get("callee") == "p_uthread_unref" and root_var(c["args"][0]) in getters]
+        if not unrefs:
+            continue
+        nslot += 1
+        clears = [(b, i, c) for (b, i, c) in f_.calls() if c.get("callee") == "p_uthread_set_local" and root_var(c["args"][0]) == TLS and cv(c["args"][1]) == 0]
+        okcl = all(any(f_.postdominates(cb.id, ub.id) or (cb.id == ub.id and ci > ui) for (cb, ci, cc) in clears) for (ub, ui, uc) in unrefs)
+        rep.ob("C05.2", f_, "slot:cleared", okcl, "the handle taken from the library slot and unref'ed is removed from the slot on the same path" if okcl else
+               "line %d: the handle read from the library TLS slot is unref'ed but stays in the slot: when this thread ends, the slot's destructor drops the same reference "
+               "a second time (the handle is released while a reference is held, or freed memory is decremented)" % line(unrefs[0][2]), unrefs[0][2])
+    rep.floor("C05.2", 5 + 1)
 
     # ---- C05.3 ---------------------------------------------------------------------
     jn = u.fn("p_uthread_join").inlined()
@@ -390,6 +415,8 @@ def run(prog, rep):
 RENAME_LOCALS = ['src/puthread.c', 'src/puthread-posix.c']
 
 SELFTEST = [
+    dict(id="shutdown-keeps-handle-in-slot", file="src/puthread.c", expect="C05.2",
+         old="\t\t\tp_uthread_unref (cur_thread);\n\t\t\tp_uthread_set_local (pp_uthread_specific_data, NULL);\n", new="\t\t\tp_uthread_unref (cur_thread);\n"),
     dict(id="ref-count-one-plus-late-ref", expect="C05.2", edits=[
         dict(file="src/puthread.c", old="\t\tbase_thread->ref_count = 2;", new="\t\tbase_thread->ref_count = 1;"),
         dict(file="src/puthread.c", old="\tp_spinlock_unlock (pp_uthread_new_spin);\n\n\tif (base_thread->name != NULL)", new="\tp_spinlock_unlock (pp_uthread_new_spin);\n\n\tp_uthread_ref ((PUThread *) base_thread);\n\n\tif (base_thread->name != NULL)")]),
